@@ -118,6 +118,15 @@ def run_case(case: Dict[str, Any], ctx) -> None:
                 m.register_buffer(n, p.detach().clone())
         if any(True for _ in m.buffers()):
             ctx.count("form:module-with-float-buffers")
+    elif case["seed"] % 3 == 1:
+        # some parameters FROZEN (requires_grad=False), e.g. a pretrained trunk under a trainable head
+        frng = rng_for(case["seed"], "frozen")
+        ps = list(m.parameters())
+        for p_ in ps[1:]:
+            if frng.random() < 0.5:
+                p_.requires_grad_(False)
+        if any(not p_.requires_grad for p_ in ps):
+            ctx.count("form:module-with-frozen-parameters")
     inputs = progs.make_inputs(prog, case["seed"] + 5)
     chain, fmt = case["chain"], case["fmt"]
     key = "C17"
@@ -156,7 +165,7 @@ def run_case(case: Dict[str, Any], ctx) -> None:
                 nf = len(q.calls)
                 g = torch.Generator().manual_seed(case["seed"] + 9)
                 ups = [torch.randn(y.shape, generator=g, dtype=y.dtype) for y in outs]
-                leaves = [t for t in ins if t.is_floating_point()] + [params[k] for k in sorted(params)]
+                leaves = [t for t in ins if t.is_floating_point()] + [params[k] for k in sorted(params) if params[k].requires_grad]
                 grads = torch.autograd.grad(outs, leaves, ups, allow_unused=True)
                 nb = len(q.calls) - nf
             res.append({"outs": [o.detach() for o in outs], "grads": grads, "qf": nf, "qb": nb, "log": list(log.records[n0:]) if log else [], "ups": ups})
@@ -205,6 +214,12 @@ def run_case(case: Dict[str, Any], ctx) -> None:
                 ctx.violation(f"{key}:nested-results-share-storage", f"results of {chain[:a]} and {chain[:b]} share parameter storage", source=src)
                 break
         # ---- execute ------------------------------------------------------------------------------------------
+        if case["seed"] % 4 == 2:
+            try:  # history: a rejected call first (wrong number of arguments, caught by the caller)
+                result()
+            except Exception:
+                ctx.count("history:rejected-call-first")
+            handler.records.clear()
         torch._dynamo.utils.counters.clear()
         try:
             runs = run(result, case["calls"], handler)
@@ -281,7 +296,7 @@ def run_case(case: Dict[str, Any], ctx) -> None:
                 mod_attrs = {md["name"]: {"constraint": "to_output_scale"} for md in prog["mods"] if md["type"] == "uu.Linear"}
                 outs_r, _ = progs.interpret(prog, pref, ins_r, "recipe" if "us" in chain else "plain", quant=progs.Quant(fwd, bwd) if "sim" in chain else None,
                                             mod_attrs=mod_attrs)
-                leaves_r = [t for t in ins_r if t.is_floating_point()] + [pref[k] for k in sorted(params)]
+                leaves_r = [t for t in ins_r if t.is_floating_point()] + [pref[k] for k in sorted(params) if params[k].requires_grad]
                 gr = torch.autograd.grad(outs_r, leaves_r, runs[0]["ups"], allow_unused=True)
             ctx.count("reference:compared")
             bad = _differs(runs[0]["outs"], runs[0]["grads"], [o.detach() for o in outs_r], gr, 2e-5)
